@@ -11,7 +11,7 @@ CONSTANTS
   Kinds = {"waive", "stale", "equal", "future", "neg"}
   Pols = {"leader", "none"}
   Mut = "none_paused"
-INVARIANTS TypeOK C16_Dense C16_Once C16_StoredAtExpected C16_AckOffset C16_RejectNotStored C16_RejectJustified C16_WaivedAccepted C16_OneWinner C16_NoneNotSilent
+INVARIANTS TypeOK C16_Dense C16_Once C16_StoredAtExpected C16_AckOffset C16_RejectNotStored C16_RejectJustified C16_WaivedAccepted C16_OneWinner C16_NoneNotSilent C16_Answered
 PROPERTIES StepsOK LogGrows
 VIEW MCView
 CHECK_DEADLOCK FALSE
